@@ -16,6 +16,7 @@ partial def loop (h : IO.FS.Stream) (out : IO.FS.Stream) (f : String → String)
 def commands : List (String × (String → String)) := [
   ("namematch", namematch),
   ("trace", trace),
+  ("api", api),
   ("legal", legal),
   ("nest", nest),
   ("tables", tables),
